@@ -26,7 +26,8 @@
 (*   ProvideFor-resolved edges of `after` up to the level.  Recorded flaws of the code:                 *)
 (*     Flaw_Provides  a target whose effective dependency is switched by an edited provider is not a    *)
 (*                    reverse dependency of the provider, so it and its dependents are not reported     *)
-(*     Flaw_NoOutput  no_test_output is not part of RuleHash                                            *)
+(*     Flaw_NoOutput  no_test_output is not part of RuleHash (repaired in the code; kept as a *_known   *)
+(*                    configuration)                                                                    *)
 EXTENDS Integers, Sequences, FiniteSets, TLC, Json
 CONSTANTS Flaw_Provides, Flaw_NoOutput,
           Base,      \* 0: every base repository; 1..6: only that one
